@@ -159,9 +159,14 @@ type Opts struct {
 	// InfoSlot > 0: the Info struct is shared with every other op of the same
 	// kind (Provide / Decorate / Invoke) that names the same slot, i.e. one
 	// struct is reused for several calls; 0: a fresh pre-filled struct.
-	InfoSlot int    `json:"infoslot,omitempty"`
-	CB       bool   `json:"cb,omitempty"`
-	LocPC    string `json:"locpc,omitempty"` // "", "zero", "self", "junk"
+	InfoSlot int  `json:"infoslot,omitempty"`
+	CB       bool `json:"cb,omitempty"`
+	// nil / empty arguments to option constructors (accepted no-ops):
+	// FillProvideInfo(nil) etc., WithProviderCallback(nil) etc., dig.As()
+	InfoNil bool   `json:"infonil,omitempty"`
+	CBNil   bool   `json:"cbnil,omitempty"`
+	AsEmpty bool   `json:"asempty,omitempty"`
+	LocPC   string `json:"locpc,omitempty"` // "", "zero", "self", "junk"
 }
 
 func (p Param) isObj() bool  { return p.IsObj || len(p.Obj) > 0 }
@@ -287,6 +292,15 @@ func (o *Opts) Short() string {
 	}
 	if o.CB {
 		parts = append(parts, "Callback")
+	}
+	if o.InfoNil {
+		parts = append(parts, "Info(nil)")
+	}
+	if o.CBNil {
+		parts = append(parts, "Callback(nil)")
+	}
+	if o.AsEmpty {
+		parts = append(parts, "As()")
 	}
 	if o.LocPC != "" {
 		parts = append(parts, "LocPC:"+o.LocPC)
